@@ -102,19 +102,16 @@ func (v viewSpec) short() string {
 	return strings.Join(l, ",")
 }
 
-// rejectSchema: the schema violation of the space: s.two must not be 3.
+// rejectSchema: the schema violations of the space: s.two must not be 3 (main family), t.u must not be 3
+// (nest family).
 type rejectSchema struct{}
 
 func (rejectSchema) Validate(data []byte) error {
-	var d struct {
-		S struct {
-			Two interface{} `json:"two"`
-		} `json:"s"`
-	}
+	var d map[string]interface{}
 	if err := json.Unmarshal(data, &d); err != nil {
 		return err
 	}
-	if f, ok := d.S.Two.(float64); ok && f == 3 {
+	if refSchemaRejects(d) {
 		return errors.New("s.two must not be 3")
 	}
 	return nil
@@ -126,7 +123,11 @@ func (rejectSchema) Type() registry.SchemaType { return registry.Any }
 
 func refSchemaRejects(bag map[string]interface{}) bool {
 	s, _ := bag["s"].(map[string]interface{})
-	f, ok := s["two"].(float64)
+	if f, ok := s["two"].(float64); ok && f == 3 {
+		return true
+	}
+	t, _ := bag["t"].(map[string]interface{})
+	f, ok := t["u"].(float64)
 	return ok && f == 3
 }
 
@@ -621,6 +622,9 @@ func refWrite(v viewSpec, bag M, o op) (out outcome, allowed [][]string) {
 	if rest != nil {
 		return outcome{Class: "bad-request"}, allowed
 	}
+	// less nested (fully expanded) storage paths are written before more nested ones, so that a write never
+	// destroys another write of the same request
+	sort.SliceStable(writes, func(i, j int) bool { return len(writes[i].sto) < len(writes[j].sto) })
 	for _, w := range writes {
 		if err := bagSet(bag, w.sto, w.val); err != nil {
 			return outcome{Class: "storage-error"}, allowed
